@@ -9,6 +9,8 @@ import math
 
 import numpy as np
 from hypothesis import strategies as st
+
+from .core import sampled_from  # noqa: E402
 from scipy.spatial import ConvexHull
 
 from . import sphere as S
@@ -119,7 +121,7 @@ def points_on_sphere(draw, min_pts, max_pts, planted=True):
         # nodes exactly on the antimeridian / prime meridian / equator
         k = draw(st.integers(1, 3))
         for _ in range(k):
-            which = draw(st.sampled_from(["am+", "am-", "pm", "eq"]))
+            which = draw(sampled_from(["am+", "am-", "pm", "eq"]))
             t = draw(st.floats(-80.0, 80.0, allow_nan=False))
             if which == "am+":
                 pts.append((180.0, t))
@@ -148,7 +150,7 @@ def hull_mesh(draw, min_pts=4, max_pts=24, partial=True, merge=True, renumber=Tr
 
     # ---- merge triangles into larger strictly convex polygons
     if merge:
-        mode = draw(st.sampled_from(["none", "few", "many", "grow"]))
+        mode = draw(sampled_from(["none", "few", "many", "grow"]))
         if mode != "none":
             budget = {"few": max(1, len(faces) // 6), "many": len(faces), "grow": len(faces)}[mode]
             faces = [list(f) for f in faces]
@@ -174,7 +176,7 @@ def hull_mesh(draw, min_pts=4, max_pts=24, partial=True, merge=True, renumber=Tr
 
     # ---- delete faces -> partial grids with holes / isolated faces
     if partial and len(faces) > 1:
-        how = draw(st.sampled_from(["global", "global", "holes", "patch", "sparse"]))
+        how = draw(sampled_from(["global", "global", "holes", "patch", "sparse"]))
         nf = len(faces)
         if how == "holes":
             drop = draw(st.sets(st.integers(0, nf - 1), min_size=1, max_size=max(1, nf // 4)))
@@ -324,7 +326,7 @@ def latlon_mesh(nlon, nlat, lon0=0.0, poles=True):
 def latlon_mesh_st(draw, renumber=True):
     nlon = draw(st.integers(3, 9))
     nlat = draw(st.integers(2, 6))
-    lon0 = draw(st.sampled_from([0.0, 180.0, -180.0, 7.5, 33.0]) | st.floats(-180, 180, allow_nan=False))
+    lon0 = draw(sampled_from([0.0, 180.0, -180.0, 7.5, 33.0]) | st.floats(-180, 180, allow_nan=False))
     poles = draw(st.booleans())
     m = latlon_mesh(nlon, nlat, lon0, poles)
     if renumber:
@@ -400,7 +402,7 @@ def prism(n, lat=35.0, lon0=10.0, twist=False):
 
 @st.composite
 def solid_mesh_st(draw, renumber=True):
-    kind = draw(st.sampled_from(["pyramid", "prism", "antiprism", "cube"]))
+    kind = draw(sampled_from(["pyramid", "prism", "antiprism", "cube"]))
     n = draw(st.integers(3, 8))
     lon0 = draw(st.floats(-180, 180, allow_nan=False))
     if kind == "pyramid":
@@ -455,10 +457,10 @@ def tiny_patch_mesh(draw, renumber=True, micro=False):
     micro=True adds sub-metre cells (2e-6 degrees), below the position tolerance of the geometric oracles: only for
     checks whose verdict on such a mesh is tolerance-free (index structure, counts)."""
     nx, ny = draw(st.integers(3, 5)), draw(st.integers(3, 5))
-    d = draw(st.sampled_from([1e-3, 1e-2, 0.1, 0.5] + ([2e-6, 2e-6] if micro else [])))
-    lon0 = draw(st.sampled_from([10.0, 179.9, -0.002, 100.0]))
-    lat0 = draw(st.sampled_from([0.0, 40.0, -70.0, 85.0]))
-    tri = draw(st.sampled_from(["quad", "tri", "mixed"]))
+    d = draw(sampled_from([1e-3, 1e-2, 0.1, 0.5] + ([2e-6, 2e-6] if micro else [])))
+    lon0 = draw(sampled_from([10.0, 179.9, -0.002, 100.0]))
+    lat0 = draw(sampled_from([0.0, 40.0, -70.0, 85.0]))
+    tri = draw(sampled_from(["quad", "tri", "mixed"]))
     nodes = [(((lon0 + i * d + 180.0) % 360.0) - 180.0, lat0 + j * d * 0.8) for j in range(ny) for i in range(nx)]
     faces = []
     for j in range(ny - 1):
@@ -495,7 +497,7 @@ def with_orphan_nodes(draw, mesh, gap_max=9):
 @st.composite
 def any_mesh(draw, max_pts=24, partial=True, structured=True, voronoi=True, renumber=True, tiny=False, orphans=False):
     if orphans and draw(st.integers(0, 7)) == 0:
-        return with_orphan_nodes(draw, draw(any_mesh(max_pts, partial, structured, voronoi, renumber, tiny, False)), draw(st.sampled_from([2, 9, 40])))
+        return with_orphan_nodes(draw, draw(any_mesh(max_pts, partial, structured, voronoi, renumber, tiny, False)), draw(sampled_from([2, 9, 40])))
     if tiny and draw(st.integers(0, 6)) == 0:
         return draw(tiny_patch_mesh(renumber))
     opts = ["hull", "hull", "hull"]
@@ -503,7 +505,7 @@ def any_mesh(draw, max_pts=24, partial=True, structured=True, voronoi=True, renu
         opts.append("voronoi")
     if structured:
         opts += ["latlon", "solid"]
-    k = draw(st.sampled_from(opts))
+    k = draw(sampled_from(opts))
     if k == "hull":
         return draw(hull_mesh(4, max_pts, partial=partial, renumber=renumber))
     if k == "voronoi":
